@@ -310,7 +310,7 @@ def cellE (arr : Mask) (segs : List Nat) (t : SegType) (mfv : Nat) (sg : Option 
   match arr.plane? p with
   | none => .error .index
   | some pl => match sg with
-    | none => labelPlane pl
+    | none => labelPlane segs pl
     | some s => segPlane segs t mfv s pl
 
 /-- a frame is kept unless it belongs to a single segment, empty frames are omitted and it is empty -/
